@@ -84,7 +84,11 @@ def runOp (op : String) (variant : List String) (ints : List Nat) (xs : Array α
       return .ok [w.simplex.maxUncertainty w.a]
   | "umax" => go do
       let w ← rdOpinion i0
-      return .ok (w.simplex.uncertaintyMaximized w.a).flat
+      -- variant token `acc`: two more flags -- the operand is accepted by `Opinion::try_new` (the model's `tryNew`), and
+      -- the maximised simplex is accepted by `Simplex::try_new` (expected: always)
+      let accFlags : List Bool :=
+        if variant.contains "acc" then [(Opinion.tryNew w.b w.u w.a).toBool, true] else []
+      return .ok (w.simplex.uncertaintyMaximized w.a).flat accFlags
   | "discount" => go do
       let w ← rdOpinion i0
       let t ← rdS
@@ -100,7 +104,18 @@ def runOp (op : String) (variant : List String) (ints : List Nat) (xs : Array α
       let alias := variant.contains "alias"
       let r := if alias then l else r
       let tag := opn ++ ":" ++ cls l ++ "-" ++ cls r ++ (if i2 == 1 then ":shared" else "") ++ (if alias then ":alias" else "")
-      return .ok (fuse (fuseOpOfNat i1) (i2 == 1 || alias) l r).flat [] [tag]
+      -- variant token `acc`: three more flags -- both operands AS PASSED (shared: the right simplex over the left base rate)
+      -- are accepted by `Opinion::try_new`; the result's simplex is accepted by `Simplex::try_new`; the whole result by
+      -- `Opinion::try_new` (expected: always)
+      -- (with two different base-rate objects the fused base rate is an un-normalised mixture: the model's own `tryNew` answers)
+      let ra := if i2 == 1 then l.a else r.a
+      let res := fuse (fuseOpOfNat i1) (i2 == 1 || alias) l r
+      let accFlags : List Bool :=
+        if variant.contains "acc" then
+          [(Opinion.tryNew l.b l.u l.a).toBool && (Opinion.tryNew r.b r.u ra).toBool, true,
+            i2 == 1 || alias || (Opinion.tryNew res.b res.u res.a).toBool]
+        else []
+      return .ok res.flat accFlags [tag]
   | "fuse_os" => go do
       let l ← rdOpinion i0
       let r ← rdSimplex i0
@@ -310,6 +325,39 @@ def runOp (op : String) (variant : List String) (ints : List Nat) (xs : Array α
       match l with
       | .ok lv => return .ok (lv.flat ++ r.flat)
       | .error e => return { cls := "err", label := e.toString, vals := r.flat }
+  -- left fold of a binomial fusion operator over k operands; variant token `vs`: followed by the multinomial fold of the
+  -- converted operands, converted back; a failing step j is reported as `err` with tag `step=j`
+  | "bfold" => go do
+      let kind := i0
+      let k := i1
+      let mut ws : Array (BOp α) := #[]
+      for _ in [0:k] do
+        ws := ws.push (← rdBOp)
+      let g ← (if kind == 0 then pure Scalar.zero else rdS)
+      if k == 0 then return .unsupported
+      let dflt : BOp α := ⟨Scalar.zero, Scalar.zero, Scalar.zero, Scalar.zero⟩
+      let w (j : Nat) : BOp α := ws.getD j dflt
+      let step (x y : BOp α) : Except Label (BOp α) := match kind with
+        | 0 => x.cfuse y
+        | 1 => x.afuse y g
+        | _ => x.wfuse y g
+      let fop : FuseOp := match kind with | 0 => .acm | 1 => .avg | _ => .wgh
+      let mut rv : List α := []
+      if variant.contains "vs" then
+        let mut macc := (w 0).toOpinion
+        for j in [1:k] do
+          macc := fuse fop false macc (w j).toOpinion
+        rv := (BOp.ofOpinion macc).flat
+      let mut acc := w 0
+      let mut failed : Option (Label × Nat) := none
+      for j in [1:k] do
+        if failed.isNone then
+          match step acc (w j) with
+          | .ok r => acc := r
+          | .error e => failed := some (e, j)
+      match failed with
+      | none => return .ok (acc.flat ++ rv)
+      | some (e, j) => return { cls := "err", label := e.toString, vals := rv, tags := [s!"step={j}"] }
   | "bcmp" => go do
       let x ← rdBOp; let y ← rdBOp; let eps ← rdS; let maxRel ← rdS
       return .ok [] [Cmp.bopCmp i0 eps maxRel i1 x y]
